@@ -2,7 +2,6 @@ import textwrap
 from tempfile import NamedTemporaryFile
 import contextlib
 import gettext
-import glob
 import gzip
 import io
 import logging
@@ -105,12 +104,17 @@ class WARCRecorder(object):
 
     def _check_journals_and_maybe_raise(self):
         '''Check if any journal files exist and raise an error.'''
-        # The file name is not a pattern: '[', '*' and '?' in it are literal.
-        files = list(glob.glob(
-            glob.escape(self._prefix_filename) + '*-wpullinc'))
+        # The file name is not a pattern ('[', '*' and '?' in it are literal)
+        # and it may begin with a dot, which a wildcard does not match.
+        dir_path, name_prefix = os.path.split(self._prefix_filename)
 
-        if files:
-            raise OSError('WARC file {} is incomplete.'.format(files[0]))
+        if not os.path.isdir(dir_path or os.curdir):
+            return
+
+        for name in sorted(os.listdir(dir_path or os.curdir)):
+            if name.startswith(name_prefix) and name.endswith('-wpullinc'):
+                raise OSError('WARC file {} is incomplete.'.format(
+                    os.path.join(dir_path, name)))
 
     def _start_new_warc_file(self, meta=False):
         '''Create and set as current WARC file.'''
